@@ -191,7 +191,10 @@ def run(ctx):
     from cooler.cli._util import parse_bins
     import cooler
     runner = CliRunner()
-    glue = [([12], 5), ([7, 3, 11], 4), ([1], 1), ([9, 9], 9), ([10, 4], 3), ([2 ** 31 - 1], 2 ** 30)]
+    glue = [([12], 5), ([7, 3, 11], 4), ([1], 1), ([9, 9], 9), ([10, 4], 3), ([2 ** 31 - 1], 2 ** 30),
+            # numeric edges: lengths and cumulative lengths around 2^31 and 2^32, a chromosome shorter than the bin width
+            ([2 ** 31, 2 ** 31 + 1], 2 ** 30), ([2 ** 32 + 5, 37, 2 ** 31 - 1], 2 ** 31), ([3 * 10 ** 9, 10 ** 9], 10 ** 9),
+            ([250, 37, 100], 100), ([2 ** 33], 2 ** 33 - 1)]
     for _ in range(40 if thorough else 10):
         glue.append(([rng.randint(1, 40) for _ in range(rng.randint(1, 4))], rng.randint(1, 15)))
     gdir = ctx.tmp / "glue"
